@@ -21,7 +21,9 @@ def Leaf.strValue (l : Leaf) : String :=
   if l.isEmpty then l.tag
   else
     let v := if l.op.isContains then quoteMeta l.sval else l.sval
-    if l.col.dtype == .customVar then l.tag ++ " " ++ v else v
+    let full := if l.col.dtype == .customVar then l.tag ++ " " ++ v else v
+    -- a blank at the end of the line would be lost by the next parse; the parser removes the ".*" again
+    if l.op.isContains && (full.toList.getLast?.map isGoSpace).getD false then full ++ ".*" else full
 
 /-- one leaf line: `<prefix>: <column> <op>[ <value>]` -/
 def Leaf.printLine (kw : String) (l : Leaf) : String :=
@@ -83,7 +85,7 @@ def Request.print (req : Request) : String :=
   ++ (if req.waitTimeout > 0 then "WaitTimeout: " ++ toString req.waitTimeout ++ "\n" else "")
   ++ (if req.waitConditionNegate then "WaitConditionNegate\n" else "")
   ++ (if req.authUser != "" then "AuthUser: " ++ req.authUser ++ "\n" else "")
-  ++ String.join (req.sort.map fun sf => "Sort: " ++ sf.name ++ " " ++ (if sf.desc then "desc" else "asc") ++ "\n")
+  ++ String.join (req.sort.map fun sf => "Sort: " ++ sf.name ++ (if sf.args != "" then " " ++ sf.args else "") ++ " " ++ (if sf.desc then "desc" else "asc") ++ "\n")
   ++ "\n"
 
 end Lmd
